@@ -25,6 +25,10 @@ Step ==
         /\ Chk(e.st = e.exp, R(e, "SameOutcomeAsAlone", e.st, e.phase))
         /\ Chk(e.same, R(e, "SameResultAsAlone", "result-differs", e.phase))
         /\ Chk(e.intact, R(e, "ResultsIntact", "held-result-changed", e.badop))
+     \* where the caller asked for copies, what a call handed out does not change when the caller reuses its input buffer
+     ELSE IF e.ev = "Alias" THEN
+        /\ Chk(e.st = "ok", R(e, "SameOutcomeAsAlone", e.st, e.op))
+        /\ Chk(e.st # "ok" \/ e.intact, R(e, "ResultsIntact", "result-changes-with-the-callers-input", e.op))
      ELSE IF e.ev = "Conc" THEN Chk(e.intact, R(e, "ResultsIntact", "held-result-changed", e.badop))
      ELSE IF e.ev = "End" THEN
         /\ Chk(e.inputs, R(e, "InputsUnchanged", "input-modified", e.phase))
